@@ -14,7 +14,9 @@ The real `Loader(options)` (built on a scratch workspace the way lian builds it)
       and tight cache/bundle configuration): every item of every GeneralLoader member is compared between what its
       last save() received, the live loader and a fresh `Loader(options).restore()`; LRUCache / GeneralLoader
       post-conditions (icontract) stay on and count their evaluations; every exception swallowed by DataModel.save
-      is recorded.
+      is recorded. Each analysis runs as a pair under the default and under a tight loader configuration: the tight
+      run must complete when the default one does, and every loader must have been given the same final content
+      (cache sizes and bundle limits are supposed to be invisible).
 The oracle is a dict id -> last saved content compared through canonical forms computed by lib/monitors/loader.py from
 the objects themselves; every history closes with: read all, export, export_indexing, independent pandas read of the
 index and bundle files, read all again, fresh-loader read of all."""
@@ -553,7 +555,10 @@ def main():
         full = (fam in DEEP) if not thorough else (fam in reps)
         if full:
             plan.append((fam, CFG_TIGHT, h_all, 2 if not thorough else 12))
-            plan.append((fam, CFG_LOOSE, h_small if not thorough else h_all, 2 if not thorough else 12))
+            if thorough and fam in DEEP:
+                plan.append((fam, CFG_LOOSE, h_all, 12))
+            else:
+                plan.append((fam, CFG_LOOSE, h_small, 2 if not thorough else 4))
         elif not thorough:
             plan.append((fam, CFG_TIGHT, h_noempty, 2))
         else:
